@@ -745,6 +745,20 @@ func g32ReserveDeclared(c *Ctx) {
 				if nodeHas(x.Cond, func(k ast.Node) bool { kid, ok := k.(*ast.Ident); return ok && kid.Name == "derivedFilename" }) {
 					guarded = true
 				}
+			case *ast.BlockStmt:
+				// the same guard as an earlier statement that leaves the iteration: if fname == derivedFilename { continue }
+				for _, st := range x.List {
+					if st.Pos() >= as.Pos() {
+						break
+					}
+					if ifs, isIf := st.(*ast.IfStmt); isIf && ifs.Else == nil && len(ifs.Body.List) > 0 {
+						if br, isBr := ifs.Body.List[len(ifs.Body.List)-1].(*ast.BranchStmt); isBr && br.Tok == token.CONTINUE {
+							if nodeHas(ifs.Cond, func(k ast.Node) bool { kid, ok := k.(*ast.Ident); return ok && kid.Name == "derivedFilename" }) {
+								guarded = true
+							}
+						}
+					}
+				}
 			}
 		}
 		if inNames && guarded {
